@@ -27,7 +27,7 @@ ASSUMPTIONS = ["the fitted scikit-learn objects (kmeans labels_/predict, tree.ap
                "Thompson leaves: distribution parameters checked by a 6-sigma moment test over 400 repeated queries (no sampler replay)",
                "dyadic rewards / integer-grid contexts; linear references within 1e-9"]
 
-KINDS = ["partial_fit", "partial_fit", "partial_fit", "add_arm", "remove_arm"]
+KINDS = ["partial_fit", "partial_fit", "partial_fit", "add_arm", "remove_arm", "fit"]
 
 
 def same(a, b, tol):
